@@ -11,7 +11,7 @@ from fractions import Fraction
 import numpy as np
 
 from realcode import (BASIS_WIRE, real_name, wire_name, make_pulse, make_wf, adjusted_duration,
-                      doc_rise_time, doc_phase_jump_time, doc_is_detuned_delay)
+                      doc_rise_time, doc_phase_jump_time, doc_is_detuned_delay, doc_fall_time)
 from seqcheck import Fail, LIMIT_ERRS, TYPESTATE_ERRS
 
 from pulser import Pulse
@@ -98,8 +98,9 @@ def chan_aux(seq) -> dict:
         slots = []
         for s in sch.slots:
             if isinstance(s.type, Pulse):
-                fs = int(s.type.fall_time(ch, in_eom_mode=False))
-                fe = int(s.type.fall_time(ch, in_eom_mode=True)) if ch.supports_eom() else 0
+                # (independent of Pulse.fall_time, which the scheduler under test reads)
+                fs = doc_fall_time(s.type, ch, False)
+                fe = doc_fall_time(s.type, ch, True) if ch.supports_eom() else 0
                 slots.append(("P", int(s.ti), int(s.tf), set(s.targets), fs, fe,
                               bool(doc_is_detuned_delay(s.type)), float(s.type.phase)))
             else:
